@@ -48,3 +48,13 @@ package worker
 //@   loop 3: invariant forall k int :: 0 <= k && k < $i ==> has(r, mapkey(wkr.starting, k))
 //@   loop 4: invariant wp == old(wp) && r != nil && r != wp.exited && (wp.exited != nil ==> dom(wp.exited) == ed && vals(wp.exited) == ev) && coveredR(wp, r, len(wp.workers)) && coveredS(wp, r, len(wp.workers))
 //@   loop 4: invariant forall k int :: 0 <= k && k < $i ==> has(r, mapkey(wp.exited, k)) && r[mapkey(wp.exited, k)] == wp.exited[mapkey(wp.exited, k)]
+
+// kill: the pool is told that the container's process is gone (onKilled, which
+// frees the worker and lets the scheduler start the container again) only after
+// a "crunch-run --kill" that succeeded, and only for this runner's container.
+//@ iface Executor.Execute
+//@   modifies nothing
+//@ func remoteRunner.kill property C14
+//@   ghost ok bool = false
+//@   calls Executor.Execute#1: set ok = ($r2 == nil)
+//@   calls rr.onKilled#1: requires ok && $0 == rr.uuid
